@@ -129,6 +129,7 @@ class Cluster:
         self.err_codes = {}  # api name -> [codes] offered as per-request ERR faults
         self.fault_kinds = ("drop-before", "drop-after", "lose", "err")
         self.fault_apis = None  # None = all
+        self.blackhole = False
         self.faults_enabled = True  # scenarios switch faults off while a client bootstraps (start() failing is not a property violation)
         self.fetch_batch_limit = None  # max batches per partition per fetch response (None = all)
         self.heartbeat_in_completing = NONE
@@ -212,6 +213,8 @@ class Cluster:
     def reply(self, conn, req, body, info=None):
         frame = kwire.encode_response(req.api_key, req.version, req.correlation_id, body)
         conn.busy = False
+        if self.blackhole:
+            return  # cluster mode "silently dropping replies": requests are applied, nothing is ever answered
         if not conn.closed:
             self.world.net.enqueue("resp", conn, frame, info or (kwire.API_NAMES[req.api_key] + "R"))
 
